@@ -152,6 +152,8 @@ OVERRIDES = [
     (r'^c29_unitless_', dict(bounded='four concrete units (none, %, fr, px), one harness each', functions=['math::unitless (argument check of pow / sqrt / log / exp)'])),
     (r'^c29_min_max_', dict(bounded='three / two concrete arguments (90px, 1in, 95px; 2, 3; 1px, 1s)')),
     (r'^c36_(expanded|compressed)_', dict(bounded=None, functions=['output::transform::handle_item (Item::Comment arm; extracted range)'])),
+    (r'^c16_(media|atrule|keyframes|for|while|each)_', dict(functions=['output::transform::handle_item (arms Item::AtMedia, Item::AtRule, Item::For, Item::While, Item::Each; extracted ranges run against recording stand-ins for ScopeRef / handle_body / check_body)'],
+        bounded='two loop values / two truthy conditions; which scope each statement uses is independent of the values')),
     (r'^c16_assignment_updates', dict(functions=['Scope::set_variable (flag logic after the module case; extracted range)'], bounded=None)),
     (r'^c17_for_end_unit', dict(functions=['sass::SrcRange::evaluate (unit conversion of the end value, extracted range)'],
                                 bounded='seven concrete (value, unit, unit) triples')),
@@ -247,7 +249,8 @@ FILE_ASSUMPTIONS = {
     'strfns.rs': [SNIP + 'Argument fetches are replaced: s.get(name!(x))? -> the real TryFrom<Value> conversion applied to a harness value, s.get_map(name!(x), check::unitless_int)? -> an i64 parameter'],
     'strfns_arith.rs': [SNIP + 'Argument fetches (s.get / s.get_map) are replaced by parameters'],
     'mathfns.rs': [SNIP + 'Argument fetches (s.get / s.get_map) are replaced by parameters'],
-    'transformfns.rs': [SNIP + 'Condition evaluation, body execution, the scope\'s format and the destination are replaced by probes that return harness-chosen values and count calls'],
+    'transformfns.rs': [SNIP + 'Condition evaluation, body execution, the scope\'s format and the destination are replaced by probes that return harness-chosen values and count calls',
+        'scope-shape harnesses (C16): inside `mod scopeshape` the names ScopeRef, SelectorCtx, handle_body and check_body are recording stand-ins, so the extracted arms are checked for WHICH scope they create and pass on; that Scope::sub / define / store_local_values / restore_local_values do what their names say is not proved here'],
     'scopefns.rs': [SNIP + 'self.define / the scope\'s variable map / define_global / get_or_none / eval_body are replaced by recording probes; '
                     'define_multi is instantiated at element type u8 (iter_items -> a Vec<u8>)'],
     'formalargs.rs': [SNIP + 'css::CallArgs is instantiated at a two-variant value type V (bodies of its methods extracted as well, OrderMap real); the sub-scope is a recording binder; '
